@@ -61,9 +61,29 @@ class Run:
     def __init__(self, pid, tier, seed, replay=None):
         self.pid, self.tier, self.seed, self.replay = pid, tier, seed, replay
         self.spec, self.mod = load_spec(pid)
-        self.work = os.path.join(VERIF, ".work", pid + ALT_TAG)
+        # one work directory per run (two runs of the same check may overlap); directories of
+        # runs whose process is gone are removed, and .work/<pid> points at the latest run
+        base = os.path.join(VERIF, ".work", "runs")
+        os.makedirs(base, exist_ok=True)
+        for d in glob.glob(os.path.join(base, pid + ALT_TAG + ".*")):
+            try:
+                os.kill(int(d.rsplit(".", 1)[1]), 0)
+            except (ValueError, ProcessLookupError):
+                shutil.rmtree(d, ignore_errors=True)
+            except PermissionError:
+                pass
+        self.work = os.path.join(base, f"{pid}{ALT_TAG}.{os.getpid()}")
         shutil.rmtree(self.work, ignore_errors=True)
         os.makedirs(self.work, exist_ok=True)
+        link = os.path.join(VERIF, ".work", pid + ALT_TAG)
+        try:
+            if os.path.islink(link):
+                os.unlink(link)
+            elif os.path.isdir(link):
+                shutil.rmtree(link, ignore_errors=True)
+            os.symlink(self.work, link)
+        except OSError:
+            pass
         self.t0 = time.time()
         self.proof = {"ok": True, "axioms": [], "closed": 0, "error": None, "broken_theorem": None, "cmd": ""}
         self.results = []  # harness result dicts
